@@ -85,13 +85,15 @@ def Engine.probe : Engine → Path → Option Bytes
 inductive Step
   | backupRead                 -- any read of `Backup()`
   | cleanRemove (p : Path)     -- `cleanUpFile` of `CleanAll` (apply_flows)
-  | save (item : Path)         -- `storeFileOnDisk` for the payload item `item`
+  | save (item : Path)         -- `storeFileOnDisk` for the payload item `item` (mkdir / create / write)
+  | saveUnlink (item : Path)   -- the `cleanUpFile` at the top of that `storeFileOnDisk` (its error is ignored)
   | validate (r : Nat)         -- dry run
   | initialize (r : Nat)       -- `stream.Initialize()`
   | haproxy (r : Nat)          -- `ManageHAProxyEndpoints`
   | metrics (r : Nat)          -- `ReloadMetricsConfig`
   | restoreRead                -- any read of the snapshot taken by `Restore()`
   | restoreStore (p : Path)    -- `storeFileOnDisk` inside `Restore()`
+  | restoreUnlink (p : Path)   -- the ignored `cleanUpFile` at the top of that `storeFileOnDisk`
 deriving DecidableEq, Repr
 
 structure Env where
@@ -147,15 +149,21 @@ def parse : List Item → Option (List (Path × Bytes))
     | some c, some ps => some ((i.path, c) :: ps)
     | _, _ => none
 
-/-- `storeFileOnDisk`: the file is removed first; a failure leaves it removed. -/
-def store (fault : Bool) (d : Disk) (p : Path) (c : Bytes) : Disk × Bool :=
-  if fault then (d.remove p, false) else (d.write p c, true)
+/-- The `_ = fs.cleanUpFile(filePath)` at the top of `storeFileOnDisk`: it may fail, nobody looks. -/
+def unlinked (unlinkFails : Bool) (d : Disk) (p : Path) : Disk :=
+  if unlinkFails then d else d.remove p
+
+/-- `storeFileOnDisk`: unlink (may fail, ignored), then mkdir / `os.Create` (create-TRUNCATE) / write.
+    After a successful store the file holds exactly the new bytes whatever the unlink did; a failure
+    of the second half leaves the file removed — or untouched, if the unlink had failed too. -/
+def store (unlinkFails fault : Bool) (d : Disk) (p : Path) (c : Bytes) : Disk × Bool :=
+  if fault then (unlinked unlinkFails d p, false) else ((unlinked unlinkFails d p).write p c, true)
 
 /-- `SavePayloadContentToDisk`: stops at the first failure. -/
 def saveAll (env : Env) : Disk → List (Path × Bytes) → Disk × Bool
   | d, [] => (d, true)
   | d, (p, c) :: rest =>
-    let r := store (env.plan (.save p)) d p c
+    let r := store (env.plan (.saveUnlink p)) (env.plan (.save p)) d p c
     if r.2 then saveAll env r.1 rest else (r.1, false)
 
 /-- `createFileSystemBackUp` (content; the md5 table is the same data). -/
@@ -171,7 +179,7 @@ def storeBackAll (env : Env) (backup : Disk) : Disk → List Path → Disk × Bo
     | some c =>
       if d.get p = some c then storeBackAll env backup d rest
       else
-        let r := store (env.plan (.restoreStore p)) d p c
+        let r := store (env.plan (.restoreUnlink p)) (env.plan (.restoreStore p)) d p c
         if r.2 then storeBackAll env backup r.1 rest else (r.1, false)
 
 /-- `Restore()`: write back what changed, then remove what was added (second loop, not reached
